@@ -21,7 +21,8 @@ from .. import core, tlc, validate
 
 PROP = "C19"
 KEYS = ["k1", "k2", "k3"]
-CONCRETE_KEYS = {"k1": ("foo",), "k2": ("subdir", "bar é"), "k3": ("subdir", "deep", "ba z.dir")}
+# "subdir.x" next to directory "subdir": the order of key tuples and the order of joined paths (the canonical one) differ
+CONCRETE_KEYS = {"k1": ("subdir.x",), "k2": ("subdir", "bar é"), "k3": ("subdir", "deep", "ba z.dir")}
 ABSENT = "-"
 POLICIES = [sorted(p) for n in range(4) for p in itertools.combinations(["add", "change", "remove"], n)]
 
